@@ -39,11 +39,11 @@ func tryReplay(prop string, o *Obl, r *FuncReport, repo, verif string) (string, 
 	if err != nil {
 		return b.String() + "no template " + tmplFile, false
 	}
-	t, err := template.New("r").Option("missingkey=error").Parse(string(tdata))
+	t, err := template.New("r").Option("missingkey=error").Funcs(template.FuncMap{"has": strings.Contains}).Parse(string(tdata))
 	if err != nil {
 		return b.String() + "template error: " + err.Error(), false
 	}
-	data := map[string]string{"Obligation": o.Name, "Label": o.Label, "Kind": o.Kind}
+	data := map[string]string{"Obligation": o.Name, "Label": o.Label, "Kind": o.Kind, "Func": o.Func}
 	for k, v := range vals {
 		data[k] = v
 	}
